@@ -74,6 +74,9 @@ pub struct Model {
 }
 
 pub fn expected_value(typ: u8, unsigned: bool, v: &PVal) -> ExpVal {
+    if typ == wire::T_NULL {
+        return ExpVal::Null;
+    }
     match v {
         PVal::Int(i) => {
             if unsigned {
